@@ -67,10 +67,10 @@ type alpha struct {
 // concretisation (seed-dependent): identifier names and literal pools; the shape space is unchanged.
 type concr struct {
 	box, pair, u, w string
-	inst           string
-	ints           []string
-	strs           []string
-	arrs           []string
+	inst            string
+	ints            []string
+	strs            []string
+	arrs            []string
 }
 
 func newConcr(seed int64) concr {
